@@ -1,6 +1,6 @@
 """C14 - state export/import, snapshots, backups and the peerstore file round-trip.
 
-SPEC  spec/Persist.tla, four machines (xfer, snap, rot, pstore), each checked exhaustively by TLC:
+SPEC  spec/Persist.tla, five machines (xfer, snap, rot, pstore, plock), each checked exhaustively by TLC:
       every transcribed step satisfies the property predicates written from the statement.
 GEN   TLC dumps the state graph of the generation configs; paths covering every transition become
       replay scripts (tools/tla.py edge_tours).
@@ -63,9 +63,25 @@ def scripts_from_graph(machine, g, tours):
         elif machine == "xfer":
             if not labels:
                 continue
-            sc = {"m": "xfer", "path": "json" if labels[0] == "Export" else "serial",
-                  "src": _entries(s0["src"]), "tgt0": _entries(s0["tgt0"])}
-            sc["nontrivial"] = bool(sc["src"]) and bool(sc["tgt0"])
+            if labels[0] == "Marshal":
+                sc = {"m": "xfer", "path": "serial", "src": _entries(s0["src"]), "tgt0": _entries(s0["tgt0"]),
+                      "fault": s0["fault"]}
+                sc["nontrivial"] = (bool(sc["src"]) and bool(sc["tgt0"])) or 0 < sc["fault"] <= len(sc["src"])
+            else:
+                # export / import rounds, all imports and re-exports on ONE target manager
+                steps = []
+                for (lab, dst) in t[1:]:
+                    if lab == "Export":
+                        steps.append({"act": "Export", "ps": _entries(g.state(dst)["src"])})
+                    elif lab in ("Import", "ReExport"):
+                        steps.append({"act": lab})
+                if steps and steps[-1]["act"] == "Export":
+                    steps.append({"act": "Import"})      # an export alone exercises nothing new
+                sc = {"m": "xfer", "path": "json", "src": _entries(s0["src"]), "tgt0": _entries(s0["tgt0"]),
+                      "steps": steps}
+                nimp = len([x for x in steps if x["act"] == "Import"])
+                sc["rounds"] = nimp
+                sc["nontrivial"] = (bool(sc["src"]) and bool(sc["tgt0"])) or nimp >= 2
         elif machine == "pstore":
             book = [{"p": p, "addrs": sorted(v["addrs"]), "prio": v["prio"]} for p, v in sorted(s0["book"].items())]
             junk = []
@@ -108,7 +124,8 @@ def generate(ctx, rng):
             # the retention value is edited between operations
             ("rot", "Persist_rot_rekeep_gen.cfg" if q else "Persist_rot_rekeep.cfg", 8, 150 if q else None),
             ("snap", "Persist_snap_gen.cfg" if q else "Persist_snap.cfg", 8, 40 if q else 500),
-            ("xfer", "Persist_xfer_gen.cfg" if q else "Persist_xfer.cfg", 4, None),
+            ("xfer", "Persist_xfer_gen.cfg", 8, 170 if q else None),
+            ("xfer", "Persist_xfer_rounds.cfg", 10, 40 if q else 600),
             ("pstore", "Persist_pstore_gen.cfg", 6, 500 if q else None),
             # files with a line longer than 64 KiB: as coded LoadLaw does not hold for them (design-level finding);
             # TLC reports that, keeps going (-continue), and the graph gives the scripts that reproduce it
@@ -126,7 +143,7 @@ def generate(ctx, rng):
             ctx.tlc(MOD, cfg, count=count, dump_dot=dot, timeout=1500)
         g = tla.read_dot(dot)
         # vacuity guard: no behaviour may get stuck before its machine's last step
-        final = {"xfer": lambda st: st["xst"] in ("imported", "unmarshalled"),
+        final = {"xfer": lambda st: st["xst"] in ("imported", "reexported", "unmarshalled", "marshalfailed"),
                  "pstore": lambda st: st["pst"] == "imported",
                  "snap": lambda st: st["nsaved"] > 0, "rot": lambda st: st["nops"] > 0}[machine]
         stuck = [n for n in g._raw if not g.edges.get(n) and not final(g.state(n))]
@@ -138,7 +155,14 @@ def generate(ctx, rng):
         nedges = sum(len(v) for v in g.edges.values())
         if sample is not None and len(sc) > sample:
             rng.shuffle(sc)
-            sc = sc[:sample]
+            if machine == "xfer":
+                serial = [x for x in sc if x["path"] == "serial"]
+                multi = [x for x in sc if x["path"] == "json" and x["rounds"] >= 2]
+                single = [x for x in sc if x["path"] == "json" and x["rounds"] < 2]
+                sc = serial[:max(sample, 200) if cfg == "Persist_xfer_gen.cfg" else 0] + multi[:sample * 2 // 3] + \
+                    single[:sample // 3]
+            else:
+                sc = sc[:sample]
         cover[cfg.replace("Persist_", "").replace(".cfg", "")] = {"graph_states": len(g._raw), "graph_transitions": nedges, "tours": len(tours),
                           "scripts": len(sc)}
         ctx.log("gen %s: %d states, %d transitions, %d tours -> %d scripts" % (
@@ -175,6 +199,11 @@ def generate(ctx, rng):
     if not any(s["m"] == "xfer" and s["path"] == "serial" and s["tgt0"] and
                set(e["c"] for e in s["tgt0"]) - set(e["c"] for e in s["src"]) for s in scripts):
         raise vcheck.Infra("generated scripts do not contain the Unmarshal-onto-non-empty-state witness")
+    # concurrent SavePeerstore / LoadPeerstore on one Manager: a seeded stress stage (schedules cannot be
+    # replayed without hooks); the design is model-checked (Persist_plock.cfg), the results are judged by TLC
+    for j in range(2 if ctx.quick() else 6):
+        scripts.append({"m": "plock", "iters": 60 if ctx.quick() else 200, "na": rng.randint(1500, 3000),
+                        "nb": rng.randint(500, 1400), "nontrivial": True})
     k = 0
     for i, s in enumerate(scripts):
         s["id"] = i + 1
@@ -203,6 +232,7 @@ def run(ctx):
     ctx.tlc(MOD, "Persist_xfer.cfg", timeout=1500)
     ctx.tlc(MOD, "Persist_snap.cfg", timeout=1500)
     ctx.tlc(MOD, "Persist_rot.cfg", timeout=1500)
+    ctx.tlc(MOD, "Persist_plock.cfg", timeout=1500)
     if not ctx.quick():
         ctx.tlc(MOD, "Persist_rot_thorough.cfg", timeout=1500)
         ctx.tlc(MOD, "Persist_rot_rekeep.cfg", timeout=1500)
@@ -213,6 +243,14 @@ def run(ctx):
     if not w.violation:
         raise vcheck.Infra("the merge variant of Unmarshal no longer refutes SerialLawAny: the law has become vacuous")
     ctx.extra["refutation_witness_unmarshal_merge"] = True
+    # likewise: a Marshal that logs a query error and goes on refutes MarshalLaw, and a SavePeerstore that
+    # truncates the file before taking the lock refutes NoTornLoad
+    for cfg, name in (("Persist_xfer_witness_marshal.cfg", "marshal_skips_query_error"),
+                      ("Persist_plock_witness.cfg", "peerstore_truncate_outside_lock")):
+        w = ctx.tlc(MOD, cfg, count=False, expect_violation=True, timeout=600)
+        if not w.violation:
+            raise vcheck.Infra("refutation witness %s no longer violates its law: the law has become vacuous" % cfg)
+        ctx.extra["refutation_witness_" + name] = True
     ctx.exhaustive = True
     # GEN
     scripts = generate(ctx, rng)
@@ -239,9 +277,16 @@ def classify(rec):
     if a in ("RotMkLogs", "RotRekeep"):
         return "C14:rot:" + a
     if a == "Export":
-        return "C14:export:%s" % rec["skind"]
+        return "C14:export:%s%s" % (rec["skind"], ":reexport" if rec.get("reexport") else "")
+    if a == "Marshal":
+        return "C14:marshal:%s:%s" % (rec["via"], "query-error" if rec["fault"] else "no-fault")
+    if a == "CLoad":
+        return "C14:peerstore:concurrent:torn-load"
+    if a == "CFinal":
+        return "C14:peerstore:concurrent:final-file"
     if a == "Import":
-        return "C14:import:%s%s" % (rec["kind"], "" if rec["stream"] else ":empty-stream")
+        return "C14:import:%s%s%s" % (rec["kind"], "" if rec["stream"] else ":empty-stream",
+                                      ":again" if rec.get("round", 1) > 1 else "")
     if a == "Reserialize":
         if rec.get("via") == "snapshot":
             return "C14:snapshot:offline:%s" % ("fresh-store" if rec["fresh"] else "nonempty-store")
@@ -271,6 +316,10 @@ WHAT = {
     "Reserialize": "serialising then deserialising the state (Marshal/Unmarshal, or SnapshotSave/OfflineState) did not "
                    "reproduce the pinset",
     "SnapSave": "SnapshotSave failed",
+    "Marshal": "a dump (Marshal / SnapshotSave / List) over a datastore with a failing query reported success without "
+               "holding exactly the pinset",
+    "CLoad": "LoadPeerstore running next to SavePeerstore returned a torn list (not one whole saved list)",
+    "CFinal": "after concurrent SavePeerstore calls the file is not one of the saved lists",
     "Offline": "OfflineState does not read back the saved snapshot",
     "StartPeer": "a Raft peer started on the saved snapshot does not hold its pinset",
     "PSave": "the peerstore file is not the known peers' addresses in priority order",
@@ -285,7 +334,7 @@ def judge(ctx, trace, scripts):
     r = tla.run_tlc(ctx.specdir(), "PersistTrace.tla", "PersistTrace.cfg", workers=1, timeout=3000, heap="6g",
                     env_extra={"TRACE_FILE": trace, "VERDICT_FILE": verdict})
     ctx.log("tlc PersistTrace: rc=%s %.1fs" % (r.rc, r.wall))
-    if not os.path.exists(verdict):
+    if r.rc != 0 or not os.path.exists(verdict):
         print(r.out[-3000:])
         raise vcheck.Infra("PersistTrace produced no verdict")
     v = json.loads(open(verdict).readline())
